@@ -256,7 +256,11 @@ pub fn run_shard(check: &dyn Check, tier: Tier, seed: u64, shard: u64, nshards: 
     let mut sh = Shard::new(check.id(), tier, seed, shard, nshards, &workdir);
     sh.journal = std::fs::File::create(outdir.join(format!("shard_{shard}.journal"))).ok();
     check.shard_begin(&mut sh);
-    let items = if under_miri() { check.miri_work() } else { check.work(tier) };
+    let mut items = if under_miri() { check.miri_work() } else { check.work(tier) };
+    // debugging aid (never set by a registered command; the coverage floors then report what is missing)
+    if let Ok(only) = std::env::var("VERIF_ONLY_MODE") {
+        items.retain(|i| i.mode == only);
+    }
     for item in items {
         let mut n = shard;
         while n < item.count {
